@@ -261,7 +261,7 @@ pub fn report_failure(rep_out: &mut Report, t: &Ty, v: &Val, rep: Rep, dir: Dir,
             dir.name(),
             fam,
             ver_name(rep),
-            sig_class(&mt),
+            root_class(&mt),
             value_class(&mt, &mv)
         )
     };
